@@ -284,9 +284,10 @@ type oblock struct {
 	txs    []string
 	accts  []string
 	nonces []uint64
+	extra  string // Block.Extra as handed to the executor (the executor reads it: a non-empty value makes it skip proof verification)
 }
 
-func (b *oblock) sig() string { return fmt.Sprintf("%d|%d|%v", b.height, b.ts, b.txs) }
+func (b *oblock) sig() string { return fmt.Sprintf("%d|%d|%v|extra=%q", b.height, b.ts, b.txs, b.extra) }
 func (b *oblock) toBlock() *pb.Block {
 	blk := &pb.Block{BlockHeader: &pb.BlockHeader{Number: b.height, Timestamp: b.ts, Version: []byte("1.0.0")}, Transactions: &pb.Transactions{}}
 	for i, h := range b.txs {
@@ -299,7 +300,7 @@ func (b *oblock) toBlock() *pb.Block {
 }
 
 func fromCommit(ev *pb.CommitEvent) *oblock {
-	b := &oblock{height: ev.Block.BlockHeader.Number, ts: ev.Block.BlockHeader.Timestamp}
+	b := &oblock{height: ev.Block.BlockHeader.Number, ts: ev.Block.BlockHeader.Timestamp, extra: string(ev.Block.Extra)}
 	for _, tx := range ev.Block.Transactions.Transactions {
 		b.txs = append(b.txs, tx.GetHash().String())
 		b.accts = append(b.accts, tx.GetFrom().String())
